@@ -330,15 +330,21 @@ example : CurveSrc.Circle_ContainsPoint_contains ⟨⟨-3, 2⟩, 7⟩ ⟨0, 5⟩
 
 /-- Every function of every `impl` of `Circle`, `circle::Points`, `circle::Scanlines` (and of `Scanline`, the ellipse
 types) in the parsed files that is NOT translated. An added function (an override of `Iterator::nth` / `fold` for
-`Points`, a second `contains`) shows up here and breaks this theorem. Generic impls (`impl<C: PixelColor> StyledDrawable ..`)
-are not looked into by the item scanner and are not part of this list. -/
+`Points`, a second `contains`) shows up here and breaks this theorem. The pixel path (`StyledPixelsIterator::{new, next}`,
+`StyledPixels::pixels`) is listed here: it is NOT regenerated (tied by the `styled.*` streams). -/
 theorem curve_untranslated_pinned :
     CurveSrc.untranslated =
       [("impl Circle", ["distances"]),
+       ("impl StyledPixels<PrimitiveStyle> for Circle", ["pixels"]),
        ("impl Transform for Circle", ["translate_mut"]),
+       ("impl CircleStyledPixelsIterator", ["new"]),
+       ("impl Iterator for CircleStyledPixelsIterator", ["next"]),
+       ("impl StyledPixels<PrimitiveStyle> for Ellipse", ["pixels"]),
        ("impl Transform for Ellipse", ["translate_mut"]),
-       ("impl Scanline", ["bresenham_intersection", "draw", "extend", "to_rectangle", "touches", "try_extend",
-         "try_take"]),
-       ("impl StyledScanline", ["draw_stroke", "draw_stroke_and_fill"])] := by decide
+       ("impl EllipseStyledPixelsIterator", ["new"]),
+       ("impl Iterator for EllipseStyledPixelsIterator", ["next"]),
+       ("impl PrimitiveStyle", ["const_default", "is_transparent", "new", "with_fill", "with_stroke"]),
+       ("impl Default for PrimitiveStyle", ["default"]),
+       ("impl Scanline", ["bresenham_intersection", "extend", "to_rectangle", "touches", "try_extend", "try_take"])] := by decide
 
 end EG.C05.Src
